@@ -67,8 +67,12 @@ Underscores == <<"", "_", "__", "___", "____", "_____">>
 
 IsAm242(z, a) == z = 95 /\ a = 242
 
-NameOf(z, a, s) == IF IsAm242(z, a) /\ s = 0 THEN "AM242G" ELSE Sym[z] \o ToString(a) \o MetaUp[s + 1]
-DbNameOf(z, a, s) == IF IsAm242(z, a) /\ s = 0 THEN "nAm242g" ELSE "n" \o CapSym[z] \o ToString(a) \o MetaLow[s + 1]
+(* what the constructor computes (_createName, getDatabaseName on that name) ... *)
+RawNameOf(z, a, s) == Sym[z] \o ToString(a) \o MetaUp[s + 1]
+RawDbNameOf(z, a, s) == "n" \o CapSym[z] \o ToString(a) \o MetaLow[s + 1]
+(* ... and the names of the finished directory, after updateNuclideBasesForSpecialCases renamed the Am-242 ground state *)
+NameOf(z, a, s) == IF IsAm242(z, a) /\ s = 0 THEN "AM242G" ELSE RawNameOf(z, a, s)
+DbNameOf(z, a, s) == IF IsAm242(z, a) /\ s = 0 THEN "nAm242g" ELSE RawDbNameOf(z, a, s)
 LabelOf(z, a, s) == Sym[z] \o ToString((a % Pow10(4 - Len(Sym[z]))) \div 10) \o LabelChars[(a % 10) + 10 * s + 1]
 McnpA(z, a, s) == IF IsAm242(z, a) THEN (IF s # 1 THEN a + 300 + 100 * (IF s > 1 THEN s ELSE 1) ELSE a)
                   ELSE IF s > 0 THEN a + 300 + 100 * s ELSE a
